@@ -95,7 +95,7 @@ def require_taken(res, actions):
         raise tlc.MachineryError(f"actions never taken (vacuous model): {missing}")
 
 
-def judge_facts(facts, tag="facts", invariant=False):
+def judge_facts(facts, tag="facts"):
     """OptimisersFacts.tla decides the predicates on the logged facts.
     Returns list of (fact index (0-based), [failed predicate names])."""
     d = os.path.join(tlc.OUT, "tmp", f"c16facts-{os.getpid()}-{uuid.uuid4().hex[:6]}")
@@ -104,8 +104,6 @@ def judge_facts(facts, tag="facts", invariant=False):
     with open(path, "w") as f:
         json.dump(facts, f)
     try:
-        if invariant:
-            return tlc.run("OptimisersFacts", tlc.cfg_text(constants=dict(EMIT=False), invariants=["FactsHold"]), workers=1, env={"FACTS_FILE": path}, tag=tag)
         res = tlc.run("OptimisersFacts", tlc.cfg_text(constants=dict(EMIT=True)), workers=1, env={"FACTS_FILE": path}, tag=tag)
     finally:
         shutil.rmtree(d, ignore_errors=True)
@@ -469,16 +467,18 @@ def es_plan(quick):
             ((5, 2, "FeedInfNan", True, False), [R(1, bounds=0.5), Cd]),
             ((6, 2, "FeedTies", True, True), [R(2, cov0="full"), Cd, Z]),
         ]
-    plan = []
-    for n, g, feed in [(2, 3, "FeedAll"), (3, 3, "FeedMid"), (4, 2, "FeedMid"), (5, 2, "FeedSmall"), (6, 2, "FeedInfNan")]:
-        for mx, act in [(False, False), (True, True)] if n != 4 else [(False, True), (True, False)]:
-            ads = [R(1, cov0="diag"), R(2, cov0="full"), R(3), Cd, Z]
-            if n in (2, 5):
-                ads.append(R(2, bounds=0.5))
-            plan.append(((n, g, feed, mx, act), ads))
-    plan.append(((3, 2, "FeedAll", False, True), [R(1), R(3, cov0="diag"), Cd, Z]))
-    plan.append(((6, 3, "FeedTies", False, False), [R(3), Cd, Z]))
-    return plan
+    return [
+        ((2, 3, "FeedAll", False, False), [R(1, cov0="diag"), R(2, cov0="full"), R(3), Cd, Z, R(2, bounds=0.5)]),
+        ((2, 3, "FeedAll", True, True), [R(1), R(2), R(3, cov0="diag"), Cd, Z]),
+        ((3, 3, "FeedMid", False, True), [R(1), R(2, cov0="full"), Cd, Z]),
+        ((3, 2, "FeedAll", True, False), [R(3), R(1, bounds=0.5), Cd, Z]),
+        ((4, 2, "FeedMid", False, True), [R(2), Cd, Z]),
+        ((4, 2, "FeedSmall", True, False), [R(3, cov0="diag"), R(1), Cd, Z]),
+        ((5, 2, "FeedSmall", False, False), [R(2), Cd]),
+        ((5, 2, "FeedInfNan", True, True), [R(1, bounds=0.5), R(3), Cd, Z]),
+        ((6, 2, "FeedInfNan", False, True), [R(2, cov0="full"), Cd, Z]),
+        ((6, 3, "FeedTies", True, False), [R(3), R(1), Cd, Z]),
+    ]
 
 
 def s31(x):
@@ -488,7 +488,7 @@ def s31(x):
 def run_cmaes(rep, quick):
     jobs, names = [], []
     # ---- properties on the model: incumbent properties against the ghost history
-    hist_runs = [(2, 3, "FeedAll"), (3, 2, "FeedAll")] if quick else [(2, 3, "FeedAll"), (3, 2, "FeedAll"), (4, 2, "FeedSmall"), (2, 4, "FeedMid"), (5, 1, "FeedAll")]
+    hist_runs = [(2, 3, "FeedAll"), (3, 2, "FeedAll")] if quick else [(2, 3, "FeedAll"), (3, 2, "FeedAll"), (4, 2, "FeedSmall"), (2, 4, "FeedSmall"), (5, 1, "FeedAll")]
     for n, g, feed in hist_runs:
         for mx in ((n % 2 == 1,) if quick else (False, True)):
             c = dict(N=n, MaxGen=g, Feed=tlc.Subst(feed), Maximize=mx, Active=False, HIST=True, EMIT=False)
@@ -526,7 +526,6 @@ def run_cmaes(rep, quick):
     facts = weight_facts(rep)
     n_weight = len(facts)
     edges = nontrivial = 0
-    seen_tells = set()
     for (cfg, adapters), (G, g) in zip(plan, graphs):
         n, gens, feed, mx, act = cfg
         if not G.roots():
@@ -542,7 +541,7 @@ def run_cmaes(rep, quick):
                     nontrivial += 1
         rep.sample({"cmaes": dict(N=n, feed=feed, maximize=mx, active=act), "transition": g.emitted[min(len(g.emitted) - 1, 37 * n)]})
     # binding canary: a corrupted model state must be noticed by the replay
-    G0, g0 = graphs[0]
+    g0 = graphs[0][1]
     e0 = copy.deepcopy(next(e for e in g0.emitted if e["op"] == "Tell" and e["pre"]["it"] == 0 and e["post"]["bestId"] == 1))
     e0["post"]["bestId"] = 0
     n0, _, _, mx0, act0 = plan[0][0]
@@ -627,7 +626,6 @@ def other_digest(net):
     import jax
     from flax import nnx
 
-    params = {id(x) for x in param_leaves(net)}
     _, pstate, rest = nnx.split(net, nnx.Param, ...)
     return digest(*[np.asarray(x) for x in jax.tree_util.tree_leaves(rest)])
 
@@ -896,7 +894,7 @@ def run_cem(rep, quick):
         upd_cfgs = [
             dict(base, NPops={2, 3}, Alphas=S("AlphasAll"), Fits=S("CFitInf")),
             dict(base, NPops={4}, Alphas=S("AlphasAll"), Fits=S("CFitThree")),
-            dict(base, NPops={4}, Alphas=S("AlphasSome"), Fits=S("CFitInf"), NPats=2),
+            dict(base, NPops={4}, Alphas=S("AlphaDefault"), Fits=S("CFitInf")),
             dict(base, NPops={5, 6}, Alphas=S("AlphasSome"), Fits=S("CFitTies")),
             dict(base, NPops={2, 3}, Alphas=S("AlphasSome"), Fits=S("CFitTies"), Lattice="full"),
         ]
@@ -1123,7 +1121,10 @@ def record_train(n, d, total, script, active, seed):
 
     env = make_script_env(script, ev, rec)
     policy = TagPolicy()
-    with mock.patch.multiple(C, sample_population=sample_population, get_next_parameters=get_next_parameters, set_params=set_params, set_evaluation_feedback=set_evaluation_feedback, is_cmaes_finished=is_cmaes_finished, update_search_distribution=update_search_distribution):
+    import warnings
+
+    with warnings.catch_warnings(), mock.patch.multiple(C, sample_population=sample_population, get_next_parameters=get_next_parameters, set_params=set_params, set_evaluation_feedback=set_evaluation_feedback, is_cmaes_finished=is_cmaes_finished, update_search_distribution=update_search_distribution):
+        warnings.simplefilter("ignore")  # "[CMA-ES] Stopping: ..." is expected in the scripted runs
         result = C.train_cmaes(env, policy, total_episodes=total, seed=seed, variance=0.5, n_samples_per_update=n, active=active, progress_bar=False)
     ev.append(
         {
